@@ -61,7 +61,7 @@ fn writer(tier: &str) -> Vec<String> {
         v.push(format!("wlong:cap={}:end={}:n={}:fail=7", cap, end, if thorough { 200_000 } else { 70_000 }));
     }
     // very large capacities on the real sinks (lengths around the UDP payload limit and 64 KiB)
-    v.push("sock-buf:sink=udp:cap=100000:depth=3:lens=1,30000,35507,65506,65507,65508,99999".to_string());
+    v.push("sock-buf:sink=udp:cap=100000:depth=3:lens=1,30000,35507,65506,65507,65508,70000,99999".to_string());
     v.push("sock-buf:sink=unix:cap=100000:depth=3:lens=1,30000,35507,65506,65507,65508,99999".to_string());
     v.push("sock-buf:sink=spy:cap=131072:depth=3:lens=1,1000,65505,65506,65507,65535,65536,65537,131071,131072".to_string());
     v.push("sock-buf:sink=udp:cap=8:depth=2:lens=1,7,65507,65508,70000".to_string());
@@ -576,6 +576,13 @@ fn c12(tier: &str) -> Vec<String> {
         v.push(format!("qflush:cap={}:prog={}WF:P=0", cap, "E".repeat(300)));
         v.push(format!("qflush:cap={}:prog={}F{}WF:P=0", cap, "E".repeat(130), "E".repeat(70)));
     }
+    // buffers larger than 64 KiB shared by two threads (a 64 KiB metric among short ones)
+    for prog in ["HE.EF", "EH.FE", "EHE.E"] {
+        for cap in [70000, 131072] {
+            v.push(format!("mutex:sink=spy:via=sink:cap={}:prog={}", cap, prog));
+        }
+        v.push(format!("mutex:sink=unix:via=sink:cap=70000:prog={}", prog));
+    }
     // one client -> queuing sink -> buffered sink, flush racing the worker: order and conservation
     for prog in ["EEF", "EEEF", "EFEF", "EEFEF"] {
         for cap in [6, 16] {
@@ -603,7 +610,7 @@ fn c13(tier: &str) -> Vec<String> {
             v.push(format!("sock-buf:sink={}:cap={}:depth={}", sink, cap, if th { 4 } else { 3 }));
         }
     }
-    v.push("sock-buf:sink=udp:cap=100000:depth=3:lens=1,30000,35507,65506,65507,65508,99999".to_string());
+    v.push("sock-buf:sink=udp:cap=100000:depth=3:lens=1,30000,35507,65506,65507,65508,70000,99999".to_string());
     v.push("sock-buf:sink=unix:cap=100000:depth=3:lens=1,30000,35507,65506,65507,65508,99999".to_string());
     v.push("sock-buf:sink=udp:cap=8:depth=2:lens=1,7,65507,65508,70000".to_string());
     // capacities above the usual buffer sizes (jumbo frames, Unix sockets)
@@ -638,7 +645,7 @@ fn c14(tier: &str) -> Vec<String> {
         v.push(format!("stats:mode={}:prog={}:D=1", mode, many));
     }
     v.push(format!("stats:mode=raw:prog={}:D=1", many_e));
-    v.push("sock-buf:sink=udp:cap=100000:depth=3:lens=1,30000,35507,65506,65507,65508,99999".to_string());
+    v.push("sock-buf:sink=udp:cap=100000:depth=3:lens=1,30000,35507,65506,65507,65508,70000,99999".to_string());
     let progs: Vec<&str> = if th { vec!["oo.oo", "oe.eo", "o.o.o", "oe.o.e", "ooo.oo", "oe.oe.oe", "oo.oo.o"] } else { vec!["oo.oo", "oe.eo", "o.o.o", "oe.o.e"] };
     for prog in progs {
         for mode in ["raw", "unix", "udp"] {
